@@ -34,7 +34,7 @@ var profiles = map[string]profile{
 	"C04": {deep: 40, on: []string{"frame", "reject"}, byz: 250, spec: 120, storms: true, restarts: true, maxEvents: 90, forks: 1},
 	"C05": {resets: true, on: []string{"fc"}, heavyOK: true, restarts: true, maxEvents: 110, forks: 2},
 	"C06": {resets: true, on: []string{"clock"}, heavyOK: true, restarts: true, maxEvents: 110, forks: 2},
-	"C07": {on: []string{"twin", "reject"}, byz: 250, spec: 150, storms: true, maxEvents: 90, forks: 1},
+	"C07": {deep: 40, on: []string{"twin", "reject"}, byz: 250, spec: 150, storms: true, maxEvents: 90, forks: 1},
 	"C08": {deep: 100, deepEv: [2]int{110, 240}, on: []string{"restartenum"}, byz: 80, maxEvents: 70, forks: 1},
 	"C09": {resets: true, on: []string{"seal", "joiner", "agree"}, byz: 20, restarts: true, maxEvents: 140, forks: 1},
 	"C10": {deep: 40, resets: true, on: []string{"ref", "reject"}, byz: 120, spec: 10, restarts: true, maxEvents: 130, forks: 1},
